@@ -1821,14 +1821,23 @@ size_t rtosc_scan_arg_val(const char* src,
                 if(rd)
                  src+=rd;
 
-                uint64_t secfracs;
+                uint64_t secfracs = 0;
 
                 // lossless format is appended in parentheses?
                 //  => take it directly from there
-                if(skip_fmt(&src, "%*f (%n"))
+                // (fractions start at the '.', a following float is not ours)
+                if(*src == '.' && skip_fmt(&src, "%*f (%n"))
                 {
+                    // 32 bit fixed point ("0x...p-32"),
+                    // or a hex float like the printer writes it
+                    rd = 0;
                     sscanf(src, " ... + 0x%8"PRIx64"p-32 s )%n",
                            &secfracs, &rd);
+                    if(!rd)
+                    {
+                        sscanf(src, " ... + %f s )%n", &secfracsf, &rd);
+                        secfracs = rd ? rtosc_float2secfracs(secfracsf) : 0;
+                    }
                     src += rd;
                 }
                 // float number, but not lossless?
@@ -1839,11 +1848,6 @@ size_t rtosc_scan_arg_val(const char* src,
                     src += rd;
 
                     secfracs = rtosc_float2secfracs(secfracsf);
-                }
-                else
-                {
-                    // no fractional / floating seconds part
-                    secfracs = 0;
                 }
 
                 // posix adjustments
